@@ -520,9 +520,11 @@ func (s *stickyBalanceStrategy) performReassignments(reassignablePartitions []to
 				Logger.Printf("Expected topic %s partition %d to be assigned to a consumer", partition.Topic, partition.Partition)
 			}
 
-			if _, exists := prevAssignment[partition]; exists {
-				if len(currentAssignment[consumer]) > (len(currentAssignment[prevAssignment[partition].MemberID]) + 1) {
-					sortedCurrentSubscriptions = s.reassignPartition(partition, currentAssignment, sortedCurrentSubscriptions, currentPartitionConsumer, prevAssignment[partition].MemberID)
+			// hand the partition back to its previous owner only if that member is (still) subscribed to the topic:
+			// stale user data may name partitions of topics the member no longer consumes
+			if prev, exists := prevAssignment[partition]; exists && strsContains(partition2AllPotentialConsumers[partition], prev.MemberID) {
+				if len(currentAssignment[consumer]) > (len(currentAssignment[prev.MemberID]) + 1) {
+					sortedCurrentSubscriptions = s.reassignPartition(partition, currentAssignment, sortedCurrentSubscriptions, currentPartitionConsumer, prev.MemberID)
 					reassignmentPerformed = true
 					modified = true
 					continue
